@@ -13,7 +13,7 @@ PROPERTY = "C09"
 LEVEL = "exploration"
 RULE = (
     "exhaustive part: EVERY definition over n states = every edge set (self-loops included) x every initial-flag set x every final-flag set x "
-    "strict_states on/off, for n = 1..3 (66 064 definitions; quick and thorough) and n = 4 with exactly one initial state (8 388 608; thorough); "
+    "strict_states on/off, for n = 1..3 (66 064 definitions; quick and thorough), the same with any subset of the self-loops declared internal for n <= 2 (n = 3 in thorough), and n = 4 with exactly one initial state (8 388 608; thorough); "
     "generated part (Hypothesis): n <= 5, edge multiplicities, shared/multi-event names, from_.any() targets, internal transitions (self and "
     "non-self), states declared in a shuffled order, classes with states but no events and events but no registered states. Oracle = independent "
     "set-based fixpoint computation: InvalidDefinition iff no state / no event / initial count != 1 / a transition leaves a final state / a "
@@ -167,13 +167,17 @@ def direction_sensitive(case, edges, exp):
 
 
 # ---------------------------------------------------------------- exhaustive enumeration
-def space(n, one_initial=False):
-    return (2 ** (n * n)) * (n if one_initial else 2 ** n) * (2 ** n) * 2
+def space(n, one_initial=False, internal=False):
+    return (2 ** (n * n)) * (n if one_initial else 2 ** n) * (2 ** n) * 2 * (2 ** n if internal else 1)
 
 
-def nth(n, idx, one_initial=False):
+def nth(n, idx, one_initial=False, internal=False):
     strict = bool(idx & 1)
     idx >>= 1
+    imask_int = 0
+    if internal:  # which of the self-loops (where present) are internal transitions
+        imask_int = idx & (2 ** n - 1)
+        idx >>= n
     fmask = idx & (2 ** n - 1)
     idx >>= n
     if one_initial:
@@ -184,16 +188,23 @@ def nth(n, idx, one_initial=False):
         idx >>= n
         ini = [i for i in range(n) if imask >> i & 1]
     edges = [[a, b] for a in range(n) for b in range(n) if idx >> (a * n + b) & 1]
+    if internal:
+        if not any(a == b and imask_int >> a & 1 for a, b in edges) or any(imask_int >> a & 1 and [a, a] not in edges for a in range(n)):
+            return None  # duplicate of a definition without internal transitions / bit set for an absent self-loop
+        edges = [[a, b, f"e{a}{b}", True] if a == b and imask_int >> a & 1 else [a, b] for a, b in edges]
     return {"n": n, "edges": edges, "initial": ini, "final": [i for i in range(n) if fmask >> i & 1], "strict": strict}
 
 
 def extra(tier, seed, shard, nshards):
-    plan = [(1, False), (2, False), (3, False)] + ([(4, True)] if tier == "thorough" else [])
+    plan = [(1, False, False), (2, False, False), (3, False, False), (1, False, True), (2, False, True)]
+    plan += [(3, False, True), (4, True, False)] if tier == "thorough" else []
     total = 0
-    for n, one in plan:
-        sp = space(n, one)
+    for n, one, internal in plan:
+        sp = space(n, one, internal)
         for idx in range(shard, sp, nshards):
-            case = nth(n, idx, one)
+            case = nth(n, idx, one, internal)
+            if case is None:
+                continue
             out = run_case(case)
             total += 1
             yield case, out
